@@ -59,9 +59,7 @@ def signature(path, keep_raise_args=False, ignore_attr_stores=(),
                 and l[3] == ('const', None))
     effects = []
     for e in path.trace:
-        if e[0] == 'assigned-call':
-            effects.append(('pending', e[1]))
-            continue
+
         if e[0] == 'store':
             if e[1][0] == 'attr' and e[1][2] in ignore_attr_stores:
                 continue
@@ -89,22 +87,6 @@ def signature(path, keep_raise_args=False, ignore_attr_stores=(),
                 effects.append(('loop', e[1], ls))
         elif e[0] in ('except', 'caught'):
             effects.append((e[0], e[1] if e[0] == 'except' else e[2]))
-    if any(x[0] == 'pending' for x in effects):
-        # a call whose value was bound to names nothing reads (in what is
-        # compared: conditions, outcome, effects) was made for its effect
-        want = set(x[1] for x in effects if x[0] == 'pending')
-        used = set()
-        stack = list(conds) + [out] + [x for x in effects
-                                       if x[0] != 'pending']
-        while stack and want - used:
-            x = stack.pop()
-            if not isinstance(x, (tuple, frozenset)):
-                continue
-            if x in want:
-                used.add(x)
-            stack.extend(y for y in x if isinstance(y, (tuple, frozenset)))
-        effects = [('do', demsg(x[1])) if x[0] == 'pending' else x
-                   for x in effects if x[0] != 'pending' or x[1] not in used]
     return (frozenset(conds), out, _order_stores(effects))
 
 
